@@ -346,7 +346,8 @@ func readPackageInfo(directory string) (*PackageInfo, error) {
 func collectPackages(parentDir string, alreadyCollected map[string]*PackageInfo, importChain map[string]bool, depthRemaining int) (*PackageInfo, error) {
 	parentInfo, err := readPackageInfo(parentDir)
 	if err != nil {
-		return nil, err
+		// parentInfo (if any) still tells where the package file is
+		return parentInfo, err
 	}
 
 	if importChain[parentInfo.Namespace] {
@@ -381,6 +382,9 @@ func collectPackages(parentDir string, alreadyCollected map[string]*PackageInfo,
 		importChain[parentInfo.Namespace] = true
 		childInfo, err := collectPackages(dir, alreadyCollected, importChain, depthRemaining-1)
 		if err != nil {
+			// Keep what could be read of the failing import in the tree: watch mode watches
+			// its directory so that repairing it triggers a regeneration
+			parentInfo.Imports[i].Package = childInfo
 			return parentInfo, err
 		}
 		importChain[parentInfo.Namespace] = false
